@@ -207,7 +207,8 @@ let vec = Vec::<i32>::deserialize(value).unwrap();
 
 use core::str;
 #[cfg(feature = "serde")]
-use std::cell::{Cell, RefCell};
+use std::cell::Cell;
+use std::cell::RefCell;
 use std::cmp::Ordering;
 #[cfg(feature = "serde")]
 use std::collections::BTreeMap;
@@ -380,6 +381,58 @@ impl ValueHandleRegistry {
             }
         }
         self.overflow.remove(&handle)
+    }
+}
+
+thread_local! {
+    // the objects (for comparisons: pairs of objects) that printing,
+    // serializing, comparing or hashing is currently inside of
+    static VALUE_WALK: RefCell<Vec<(usize, usize)>> = const { RefCell::new(Vec::new()) };
+}
+
+/// Detects values that contain themselves.
+///
+/// A namespace can hold itself (`{% set ns.me = ns %}`, also through lists,
+/// maps or other namespaces).  The code that walks values recurses and would
+/// never come back from such a value, so it enters every object through this
+/// guard and does not descend into an object (when comparing: a pair of
+/// objects) it is already inside of: there the value prints as `...`, fails
+/// to serialize, is assumed to be equal and does not contribute to the hash.
+/// Values that do not contain themselves are not affected.
+struct WalkGuard;
+
+impl WalkGuard {
+    /// Enters the object `a` (and `b` when two objects are compared).
+    ///
+    /// Returns `None` if the walk is already inside of it.
+    fn enter(a: &DynObject, b: Option<&DynObject>) -> Option<WalkGuard> {
+        let key = match b.map(|b| b.address()) {
+            None => (a.address(), 0),
+            Some(b) => (a.address().min(b), a.address().max(b)),
+        };
+        VALUE_WALK.with(|path| {
+            let mut path = path.borrow_mut();
+            if path.contains(&key) {
+                None
+            } else {
+                path.push(key);
+                Some(WalkGuard)
+            }
+        })
+    }
+}
+
+impl Drop for WalkGuard {
+    fn drop(&mut self) {
+        VALUE_WALK.with(|path| path.borrow_mut().pop());
+    }
+}
+
+/// Renders an object, or `...` in place of an object that contains itself.
+fn render_object(obj: &DynObject, f: &mut fmt::Formatter<'_>) -> fmt::Result {
+    match WalkGuard::enter(obj, None) {
+        Some(_guard) => obj.render(f),
+        None => f.write_str("..."),
     }
 }
 
@@ -630,7 +683,7 @@ impl fmt::Debug for ValueRepr {
                 }
                 write!(f, "'")
             }
-            ValueRepr::Object(ref val) => val.render(f),
+            ValueRepr::Object(ref val) => render_object(val, f),
         }
     }
 }
@@ -646,7 +699,9 @@ impl Hash for Value {
             ValueRepr::Bytes(ref b) => b.hash(state),
             ValueRepr::Object(ref d) => {
                 self.is_tuple().hash(state);
-                d.hash(state);
+                if let Some(_guard) = WalkGuard::enter(d, None) {
+                    d.hash(state);
+                }
             }
             ValueRepr::U64(_)
             | ValueRepr::I64(_)
@@ -688,7 +743,14 @@ impl PartialEq for Value {
                         }
                         if a.is_same_object(b) {
                             return true;
-                        } else if a.is_same_object_type(b) {
+                        }
+                        // comparing values that contain themselves comes back to
+                        // the same pair of objects: equal unless a difference
+                        // shows up elsewhere
+                        let Some(_guard) = WalkGuard::enter(a, Some(b)) else {
+                            return true;
+                        };
+                        if a.is_same_object_type(b) {
                             if let Some(rv) = a.custom_cmp(b) {
                                 return rv == Ordering::Equal;
                             }
@@ -889,7 +951,7 @@ impl Ord for Value {
 
                     if a.is_same_object(b) {
                         Ordering::Equal
-                    } else {
+                    } else if let Some(_guard) = WalkGuard::enter(a, Some(b)) {
                         // if there is a custom comparison, run it.
                         if a.is_same_object_type(b) {
                             if let Some(rv) = a.custom_cmp(b) {
@@ -921,6 +983,9 @@ impl Ord for Value {
                             // should not happen
                             (_, _) => unreachable!(),
                         }
+                    } else {
+                        // values that contain themselves: back at the same pair
+                        Ordering::Equal
                     }
                 }
             },
@@ -961,7 +1026,7 @@ impl fmt::Display for Value {
             ValueRepr::SmallStr(ref val) => write!(f, "{}", val.as_str()),
             ValueRepr::Bytes(ref val) => write!(f, "{}", String::from_utf8_lossy(val)),
             ValueRepr::U128(val) => write!(f, "{}", { val.0 }),
-            ValueRepr::Object(ref x) => write!(f, "{x}"),
+            ValueRepr::Object(ref x) => render_object(x, f),
         }
     }
 }
@@ -2014,37 +2079,44 @@ impl serde::Serialize for Value {
             ValueRepr::String(ref s, _) => serializer.serialize_str(s),
             ValueRepr::SmallStr(ref s) => serializer.serialize_str(s.as_str()),
             ValueRepr::Bytes(ref b) => serializer.serialize_bytes(b),
-            ValueRepr::Object(ref o) => match o.repr() {
-                ObjectRepr::Plain => serializer.serialize_str(&o.to_string()),
-                ObjectRepr::Seq | ObjectRepr::Iterable => {
-                    use serde::ser::SerializeSeq;
-                    // enumerate the object only once: an iterable over a one-shot
-                    // iterator has nothing left for a second enumeration.  The length
-                    // is only passed on when the iterator knows it exactly.
-                    let iter = o.try_iter();
-                    let len = iter.as_ref().and_then(|iter| match iter.size_hint() {
-                        (lower, Some(upper)) if lower == upper => Some(lower),
-                        _ => None,
-                    });
-                    let mut seq = ok!(serializer.serialize_seq(len));
-                    for item in iter.into_iter().flatten() {
-                        ok!(seq.serialize_element(&item));
-                    }
-
-                    seq.end()
-                }
-                ObjectRepr::Map => {
-                    use serde::ser::SerializeMap;
-                    let mut map = ok!(serializer.serialize_map(None));
-                    if let Some(iter) = o.try_iter_pairs() {
-                        for (key, value) in iter {
-                            ok!(map.serialize_entry(&key, &value));
+            ValueRepr::Object(ref o) => {
+                let Some(_guard) = WalkGuard::enter(o, None) else {
+                    return Err(serde::ser::Error::custom(
+                        "cannot serialize a value that contains itself",
+                    ));
+                };
+                match o.repr() {
+                    ObjectRepr::Plain => serializer.serialize_str(&o.to_string()),
+                    ObjectRepr::Seq | ObjectRepr::Iterable => {
+                        use serde::ser::SerializeSeq;
+                        // enumerate the object only once: an iterable over a one-shot
+                        // iterator has nothing left for a second enumeration.  The length
+                        // is only passed on when the iterator knows it exactly.
+                        let iter = o.try_iter();
+                        let len = iter.as_ref().and_then(|iter| match iter.size_hint() {
+                            (lower, Some(upper)) if lower == upper => Some(lower),
+                            _ => None,
+                        });
+                        let mut seq = ok!(serializer.serialize_seq(len));
+                        for item in iter.into_iter().flatten() {
+                            ok!(seq.serialize_element(&item));
                         }
-                    }
 
-                    map.end()
+                        seq.end()
+                    }
+                    ObjectRepr::Map => {
+                        use serde::ser::SerializeMap;
+                        let mut map = ok!(serializer.serialize_map(None));
+                        if let Some(iter) = o.try_iter_pairs() {
+                            for (key, value) in iter {
+                                ok!(map.serialize_entry(&key, &value));
+                            }
+                        }
+
+                        map.end()
+                    }
                 }
-            },
+            }
         }
     }
 }
